@@ -439,13 +439,14 @@ namespace vh
    template< int K > struct inline_id< ia0< K > > { static constexpr int value = K; };
 
    // ------------------------------------------------------------------ control families
-   inline void step();
+   inline void loop_enter( int rule, const char* cur, const char* end );
+   inline void loop_exit( int rule );
    template< int Ctl, bool Unwind, typename R >
    struct obs_control : normal< R >
    {
-      template< typename In, typename... S > static void start( const In& in, S&&... ) { step(); ev_hook( 'S', Ctl, index_of< R >(), in.position() ); }
-      template< typename In, typename... S > static void success( const In& in, S&&... ) { ev_hook( 'O', Ctl, index_of< R >(), in.position() ); }
-      template< typename In, typename... S > static void failure( const In& in, S&&... ) { ev_hook( 'F', Ctl, index_of< R >(), in.position() ); }
+      template< typename In, typename... S > static void start( const In& in, S&&... ) { loop_enter( index_of< R >(), in.current(), in.end() ); ev_hook( 'S', Ctl, index_of< R >(), in.position() ); }
+      template< typename In, typename... S > static void success( const In& in, S&&... ) { loop_exit( index_of< R >() ); ev_hook( 'O', Ctl, index_of< R >(), in.position() ); }
+      template< typename In, typename... S > static void failure( const In& in, S&&... ) { loop_exit( index_of< R >() ); ev_hook( 'F', Ctl, index_of< R >(), in.position() ); }
       template< typename In, typename... S > [[noreturn]] static void raise( const In& in, S&&... st )
       {
          ev_hook( 'R', Ctl, index_of< R >(), in.position() );
@@ -456,7 +457,7 @@ namespace vh
          ev_hook( 'G', Ctl, index_of< R >(), I::get_position( am ) );
          normal< R >::raise_nested( am, st... );
       }
-      template< typename In, typename... S, bool V = Unwind > static auto unwind( const In& in, S&&... ) -> std::enable_if_t< V > { ev_hook( 'U', Ctl, index_of< R >(), in.position() ); }
+      template< typename In, typename... S, bool V = Unwind > static auto unwind( const In& in, S&&... ) -> std::enable_if_t< V > { loop_exit( index_of< R >() ); ev_hook( 'U', Ctl, index_of< R >(), in.position() ); }
    };
    // families 2 and 3 additionally trace every Control< Rule >::match invocation (enabled or not):
    // rule, apply mode, rewind mode, position before; result and position after
@@ -648,20 +649,75 @@ namespace vh
    template<> struct eol_name< eol::cr_crlf > { static constexpr const char* v = "cr_crlf"; };
 
    // ---------------------------------------------------------------- runaway protection (a changed library may loop)
+   // A run is stopped as RUNAWAY only for a genuine cycle without progress, seen on the stack of open control-enabled
+   // attempts: (a) the same rule is entered again at the same input position (and the same input end) while an attempt of
+   // it at that position is still open - infinite recursion, or (b) one open attempt starts the same sub-rule at the same
+   // position more than 1000 times - a repetition whose body succeeds without consuming.  A run that merely is expensive
+   // (exponential backtracking) ends as BUDGET after VH_MAX_STEPS rule attempts (default 200000) and is not compared.
    struct runaway {};
+   struct budget_exhausted {};
    inline long& steps() { static long n = 0; return n; }
+   inline int& tripped() { static int t = 0; return t; }   // sticky (a catch( ... ) inside the grammar must not hide it): 1 = runaway, 2 = budget
    inline long max_steps()
    {
       static const long m = []() {
          const char* e = std::getenv( "VH_MAX_STEPS" );
-         return ( e != nullptr ) ? std::atol( e ) : 4000L;
+         return ( e != nullptr ) ? std::atol( e ) : 200000L;
       }();
       return m;
    }
-   inline void step()
+   struct lframe
    {
-      if( ++steps() > max_steps() ) {
+      int rule;
+      const char* cur;
+      const char* end;
+      std::vector< std::pair< std::pair< int, const char* >, int > > kids;   // (sub-rule, position) -> number of starts
+   };
+   inline std::vector< lframe >& lstack() { static std::vector< lframe > v; return v; }
+   inline void loop_enter( const int rule, const char* cur, const char* end )
+   {
+      if( tripped() == 1 ) {
          throw runaway{};
+      }
+      if( ( tripped() == 2 ) || ( ++steps() > max_steps() ) ) {
+         tripped() = 2;
+         throw budget_exhausted{};
+      }
+      auto& st = lstack();
+      for( auto it = st.rbegin(); it != st.rend(); ++it ) {
+         if( ( it->rule == rule ) && ( it->cur == cur ) && ( it->end == end ) ) {
+            tripped() = 1;
+            throw runaway{};
+         }
+      }
+      if( !st.empty() ) {
+         auto& kids = st.back().kids;
+         bool found = false;
+         for( auto& k : kids ) {
+            if( ( k.first.first == rule ) && ( k.first.second == cur ) ) {
+               found = true;
+               if( ++k.second > 1000 ) {
+                  tripped() = 1;
+                  throw runaway{};
+               }
+               break;
+            }
+         }
+         if( !found ) {
+            kids.push_back( { { rule, cur }, 1 } );
+         }
+      }
+      st.push_back( lframe{ rule, cur, end, {} } );
+   }
+   inline void loop_exit( const int rule )
+   {
+      // attempts above the closed one were abandoned by an exception without a closing hook (control without unwind())
+      auto& st = lstack();
+      for( std::size_t i = st.size(); i > 0; --i ) {
+         if( st[ i - 1 ].rule == rule ) {
+            st.resize( i - 1 );
+            return;
+         }
       }
    }
 
@@ -687,6 +743,8 @@ namespace vh
       lg().clear();
       st_counter() = 0;
       steps() = 0;
+      tripped() = 0;
+      lstack().clear();
       oob() = oob_record();
       // heap copy without terminator.  Default: the input is a window inside a larger buffer whose bytes BEHIND the
       // logical end are adversarial (letters, digits, line endings, UTF-8 continuation bytes, brackets), so that a read
@@ -710,8 +768,14 @@ namespace vh
          catch( const runaway& ) {
             res = "RUNAWAY";
          }
+         catch( const budget_exhausted& ) {
+            res = "BUDGET";
+         }
          catch( ... ) {
             res = "X" + describe_exception( std::current_exception() );
+         }
+         if( tripped() != 0 ) {
+            res = ( tripped() == 1 ) ? "RUNAWAY" : "BUDGET";
          }
          const auto p = in.position();
          cur = std::to_string( p.byte ) + "," + std::to_string( p.line ) + "," + std::to_string( p.column );
@@ -726,7 +790,7 @@ namespace vh
       if( oob().count != 0 ) {
          cur += ",OOB=" + std::string( oob().what ) + ":" + std::to_string( oob().need ) + ":" + std::to_string( oob().have ) + "x" + std::to_string( oob().count );
       }
-      if( res == "RUNAWAY" ) {
+      if( res == "RUNAWAY" || res == "BUDGET" ) {
          lg() = "";
          cur = "";
       }
